@@ -28,6 +28,9 @@ type FCRound struct {
 	XTracked bool      `json:"x_tracked,omitempty"`
 	G        []float64 `json:"g"`
 	Fan      int       `json:"fan,omitempty"` // consumers of the layer output (weightedRoot)
+	// ResetBefore: W, B (through the Weights() pointers) and a tracked input are reset to fresh
+	// tracked leaves between Forward and BackPropagate
+	ResetBefore bool `json:"reset_before,omitempty"`
 	Row      int       `json:"row"` // row changed for the row-independence variant
 	// after the gradient check: Update = both parameters are updated through the pointers by
 	// SGD (instead of only being reset); FreezeW / FreezeB = the parameter is then made a
@@ -96,6 +99,7 @@ func genC16(t *rapid.T) C16Case {
 		rd.XTracked = rapid.Bool().Draw(t, "xtracked")
 		rd.G = drawWeights(t, rd.Batch*c.O)
 		rd.Fan = drawFan(t)
+		rd.ResetBefore = rapid.IntRange(0, 4).Draw(t, "resetbefore") == 0
 		rd.Row = rapid.IntRange(0, rd.Batch-1).Draw(t, "row")
 		rd.Both = rapid.IntRange(0, 2).Draw(t, "both") == 0
 		rd.Update = rapid.IntRange(0, 2).Draw(t, "update") == 0
@@ -287,8 +291,25 @@ func checkC16(c C16Case) *Failure {
 		if err != nil {
 			return failf("round %d: weighting failed: %v", ri, err)
 		}
+		if rd.ResetBefore {
+			if wTracked {
+				wT.ResetGradContext(true)
+			}
+			if bTracked {
+				bT.ResetGradContext(true)
+			}
+			if rd.XTracked {
+				x.ResetGradContext(true)
+			}
+			evid.Class("C16.parameters_reset_between_forward_and_backward")
+		}
 		if err := tensor.BackPropagate(z); err != nil {
 			return failf("round %d: BackPropagate returned error: %v", ri, err)
+		}
+		if wTracked || bTracked || rd.XTracked {
+			if f := rootGradientIsOnes(z); f != nil {
+				return failf("round %d (root topology %d): %s", ri, rd.Fan, f.Msg)
+			}
 		}
 		both := rd.Both && rd.Batch == 1 // (batch 1: the expected sum does not involve finding D2)
 		var want2 ref.T
@@ -454,6 +475,15 @@ type C17Case struct {
 	// Repeat: afterwards the same optimizer updates one small tensor this many more times
 	// through one pointer variable (reset, new gradient k, Update), every step checked
 	Repeat int `json:"repeat,omitempty"`
+	// Reject: before the checked Update the same optimizer handles calls that must be rejected
+	// (nil pointer, pointer to a nil tensor, a tracked tensor without gradient); Zero: for
+	// learning rate 0 the optimizer is a zero-value struct (&optimizers.SGD{})
+	Reject bool `json:"reject,omitempty"`
+	Zero   bool `json:"zero,omitempty"`
+	// GradUse: before the Update the weight's gradient tensor is made a tracked leaf and used in
+	// a graph of its own, which is back-propagated after the Update: the Update leaves the
+	// gradient tensor (values AND grad context) alone
+	GradUse bool `json:"grad_use,omitempty"`
 }
 
 func init() { register("C17/sgd", checkC17) }
@@ -509,6 +539,9 @@ func genC17(t *rapid.T) C17Case {
 	if rapid.IntRange(0, 7).Draw(t, "repeat") == 0 {
 		c.Repeat = rapid.IntRange(9, 40).Draw(t, "repeatn")
 	}
+	c.Reject = rapid.IntRange(0, 3).Draw(t, "rejectfirst") == 0
+	c.Zero = rapid.Bool().Draw(t, "zerovalue")
+	c.GradUse = rapid.IntRange(0, 4).Draw(t, "graduse") == 0
 	return c
 }
 
@@ -533,8 +566,35 @@ func checkC17(c C17Case) *Failure {
 	if conf != nil {
 		conf.LearningRate = 123 // the caller reuses its config struct for the next optimizer
 	}
+	if c.Zero && !c.NilConf && c.LR == 0 {
+		opt = &optimizers.SGD{} // the zero value: learning rate 0
+		evid.Class("C17.zero_value_struct")
+	}
 	if c.OtherOpt == 2 {
 		otherOpt = optimizers.NewSGD(&optimizers.SGDConfig{LearningRate: lr + 0.375})
+	}
+	if c.Reject {
+		// calls that must be rejected, on the optimizer that serves the valid ones afterwards
+		if err := opt.Update(nil); err == nil {
+			return failf("Update(nil pointer) returned no error")
+		}
+		var none tensor.Tensor
+		if err := opt.Update(&none); err == nil || none != nil {
+			return failf("Update(pointer to nil tensor) returned no error (or replaced it)")
+		}
+		fresh := lib.MustNew([]int{2}, []float64{1, 2}, true)
+		keep := fresh
+		if err := opt.Update(&fresh); err == nil || fresh != keep {
+			return failf("Update of a tensor without gradient returned no error (or replaced it)")
+		}
+		// the rejected tensor is still the tracked leaf it was
+		if err := tensor.BackPropagate(keep.Scale(3)); err != nil || keep.Gradient() == nil {
+			return failf("after a rejected Update the tensor is no longer a usable tracked leaf (BackPropagate: %v, gradient nil: %v)", err, keep.Gradient() == nil)
+		}
+		if err := opt.Update(&fresh); err != nil {
+			return failf("Update of the tensor rejected earlier, now with a gradient, failed: %v", err)
+		}
+		evid.Class("C17.rejected_updates_first")
 	}
 	if otherOpt != nil {
 		evid.Class("C17.second_optimizer_in_use")
@@ -612,7 +672,27 @@ func checkC17(c C17Case) *Failure {
 	if f := otherStep(); f != nil {
 		return f
 	}
+	var gradHandle, gradRoot tensor.Tensor
+	if c.GradUse && hasGrad {
+		gradHandle = w.Gradient()
+		gradHandle.ResetGradContext(true)
+		gradRoot = gradHandle.Scale(2)
+	}
 	err = opt.Update(&w)
+	if gradRoot != nil {
+		if e := tensor.BackPropagate(gradRoot); e != nil {
+			return failf("BackPropagate of a graph over the gradient tensor failed: %v", e)
+		}
+		gg := gradHandle.Gradient()
+		if gg == nil {
+			return failf("Update changed the grad context of the old tensor's gradient tensor: a graph built on it before the Update no longer reaches it")
+		}
+		if _, ggv, e := lib.Read(gg); e != nil || len(ggv) == 0 || ggv[0] != 2 {
+			return failf("gradient of the gradient tensor = %v (%v), expected 2", ggv, e)
+		}
+		gradHandle.ResetGradContext(false)
+		evid.Class("C17.gradient_tensor_used_in_a_graph_of_its_own")
+	}
 	after, serr := lib.Snap(old)
 	if serr != nil {
 		return failf("previous weight unreadable after Update: %v", serr)
